@@ -254,7 +254,26 @@ impl<'tcx> Cx<'tcx> {
                 return J::obj(vec![("int", J::Int(v)), ("ty", J::string(self.ty_s(t)))]);
             }
         }
-        J::obj(vec![("c", J::string(np(|| format!("{}", c)))), ("ty", J::string(self.ty_s(t)))])
+        let mut v = vec![("c", J::string(np(|| format!("{}", c)))), ("ty", J::string(self.ty_s(t)))];
+        if let MirConst::Unevaluated(u, _) = c {
+            if let Some(p) = u.promoted {
+                v.push(("promoted", J::usize(p.index())));
+            }
+            // named or promoted constant: also print its evaluated value when not generic
+            if !rustc_middle::ty::TypeVisitableExt::has_non_region_param(c) {
+                let r = std::panic::catch_unwind(std::panic::AssertUnwindSafe(|| {
+                    c.eval(tcx, env, rustc_span::DUMMY_SP)
+                }));
+                if let Ok(Ok(cv)) = r {
+                    let ev = MirConst::Val(cv, t);
+                    let r2 = std::panic::catch_unwind(std::panic::AssertUnwindSafe(|| np(|| format!("{}", ev))));
+                    if let Ok(sv) = r2 {
+                        v.push(("cv", J::string(sv)));
+                    }
+                }
+            }
+        }
+        J::obj(v)
     }
 
     fn op_j(&mut self, body: &Body<'tcx>, body_def: DefId, o: &Operand<'tcx>) -> J {
@@ -584,8 +603,17 @@ impl<'tcx> Cx<'tcx> {
             for b in body.basic_blocks.iter() {
                 blocks.push(self.block_j(body, d, b));
             }
+            let mut promoted = Vec::new();
+            for pb in tcx.promoted_mir(d).iter() {
+                let mut pblocks = Vec::new();
+                for b in pb.basic_blocks.iter() {
+                    pblocks.push(self.block_j(pb, d, b));
+                }
+                promoted.push(J::Arr(pblocks));
+            }
             out.push(J::obj(vec![
                 ("def", J::usize(di)),
+                ("promoted", J::Arr(promoted)),
                 ("argc", J::usize(body.arg_count)),
                 ("span", self.span_j(body.span)),
                 ("locals", J::Arr(locals)),
